@@ -247,7 +247,7 @@ func runBatch(rep *vh.Report, r *vh.RNG, name string, nDialects int, st *c18stat
 		enumRes.Observations = append(enumRes.Observations, pr.Output.Enums.Observations...)
 		enumRes.Samples = append(enumRes.Samples, pr.Output.Enums.Samples...)
 	}
-	if st.programs <= nDialects {
+	if compare && strings.HasSuffix(name, "0") {
 		top := b.Tops[len(b.Tops)-1]
 		rep.Sample(map[string]interface{}{"top": top, "includes": b.Files[top].Includes, "xml": truncate(ref.RenderXML(b.Files[top]), 1500)})
 	}
